@@ -19,7 +19,7 @@ CHECKS = {
     'C04': dict(
         category='other', design_ref='DESIGN.md §5 C04',
         technique='grammar-automaton analysis (serialized ATN decoded from the compiled program, path enumeration per rule) + agreement of generated Rust constants with it + provenance rules over the visitor',
-        text='Decides: rule nesting and `?:` right associativity, flat `||`/`&&` lists, operator classes of relation/calc with right operand at level n+1 and multiplicative above additive in the ATN and identically in the generated Rust, operand order of every call node the visitor builds, operator text table, label binding in source order, source order of logical chains through the balanced tree, prefix parity and that no visit result is dropped, macros placing receiver/arguments unchanged. The round trip itself is value-level and not decided.',
+        text='Decides: rule nesting and `?:` right associativity, flat `||`/`&&` lists, operator classes of relation/calc with right operand at level n+1 and multiplicative above additive in the ATN and identically in the generated Rust, operand order of every call node the visitor builds, operator text table, that each visitor method returns only the node built by its designated constructor (a visited child or the error placeholder otherwise), label binding in source order, source order of logical chains through the balanced tree, prefix parity and that no visit result is dropped, macros placing receiver/arguments unchanged. The round trip itself is value-level and not decided.',
         note='ATN format v3 and antlr4rust adaptive prediction trusted; reference table from the property'),
     'C02': dict(
         category='other', design_ref='DESIGN.md §5 C02, §4 analysis B',
@@ -29,7 +29,7 @@ CHECKS = {
     'C17': dict(
         category='other', design_ref='DESIGN.md §5 C17',
         technique='provenance normal forms of every serde method (sibling delegations substituted) compared with a reference shape table; panic-edge audit of ser.rs; marker-name agreement between producers and consumer',
-        text='The value returned by every Serializer/KeySerializer/compound method, reduced to a normal form, equals the shape table of the property (integer kinds, containers, variants, option/unit, marker newtypes); element and entry methods store the converted element/key/value; ser.rs has no unaudited panic edge; the Duration/Timestamp wrappers and the time serializer agree on names and exact components. Commutation with serde_json is not decided.',
+        text='The value returned by every Serializer/KeySerializer/compound method, reduced to a normal form, equals the shape table of the property (integer kinds, containers, variants, option/unit, marker newtypes); element and entry methods store the converted element/key/value; ser.rs has no unaudited panic edge; the Duration/Timestamp wrappers and the time serializer agree on names and exact components; no zone conversion in ser.rs and the timestamp payload is parsed as DateTime<FixedOffset>. Commutation with serde_json is not decided.',
         note='serde provided methods and the reference table trusted'),
     'C18': dict(
         category='other', design_ref='DESIGN.md §5 C18',
@@ -39,22 +39,22 @@ CHECKS = {
     'C16': dict(
         category='other', design_ref='DESIGN.md §5 C16',
         technique='table rule (registration name -> function -> chrono accessor chain with receiver provenance), API rules for comparison and checked arithmetic',
-        text='Decides: each accessor name is registered to a function returning exactly the documented chrono field accessor applied to the receiver at its own offset; equality/ordering call DateTime\'s instant-based eq/cmp; timestamp +/- duration are checked with None -> error; timestamp()/string() are RFC 3339 parse/print of the whole value. Calendar correctness and RFC 3339 round trips are chrono\'s and not decided.',
+        text='Decides: each accessor name is registered to a function returning exactly the documented chrono field accessor applied to the receiver at its own offset; equality/ordering call DateTime\'s instant-based eq/cmp; timestamp +/- duration are checked with None -> error, timestamp - timestamp is the instant difference computed by chrono (no epoch counts); no call anywhere in the interpreter converts a DateTime to another zone or is instantiated with Utc/Local; timestamp()/string() are RFC 3339 parse/print of the whole value. Calendar correctness and RFC 3339 round trips are chrono\'s and not decided.',
         note='chrono semantics trusted'),
     'C15': dict(
         category='other', design_ref='DESIGN.md §5 C15',
-        technique='use/def rule on the parser remainder, API deny/require rules (nom float recognisers, chrono panicking operators), cast rules with interval analysis, unit table by constant propagation',
-        text='Decides: the unparsed remainder leads to an error; the number parser is a digit recogniser + str::parse, not one of nom\'s float parsers; duration arithmetic in the operator impls and the parser uses chrono checked_* with None -> error; the printer takes the magnitude by unsigned_abs with no sign-losing cast or overflowing multiplication; unit table and longest-match order; the float->int cast of a parsed term is range-guarded. Digit-exact Go rendering and the round trip are value-level and not decided.',
+        technique='use/def rule on the parser remainder, API deny/require rules (nom float recognisers, chrono panicking operators), type rule (no float-typed local, no narrowing cast in the term conversion), provenance equality of the power-of-ten scale and the parsed digits, printer-bytes vs parser-unit agreement, unit table by constant propagation',
+        text='Decides: the unparsed remainder leads to an error; the number parser is nom\'s digit recogniser, not one of its float parsers, and the term reaches its nanosecond count without any binary float or narrowing cast, the fraction scaled by 10^len of the very digits parsed; every unit the printer emits (µs) is accepted by the parser; the sign is applied to the checked TimeDelta sum (so the most negative duration parses back); duration arithmetic in the operator impls and the parser uses chrono checked_* with None -> error; the printer takes the magnitude by unsigned_abs with no sign-losing cast or overflowing multiplication; unit table and longest-match order; a float->int cast of a parsed term, if any, is range-guarded. Digit-exact Go rendering and the round trip are value-level and not decided.',
         note='nom/chrono documented behaviour trusted for the named APIs'),
     'C12': dict(
         category='other', design_ref='DESIGN.md §5 C12',
         technique='abstract interpretation of the escape branch of both decoders for every ASCII escape character, compared with the specification table and with the lexer ATN (decoded from the generated source)',
-        text='Only the escape-table clause: for each decoder and each ASCII character the code after a backslash is classified on every path (appends one constant code point / n hex digits / octal / error); the table must equal the CEL specification and accept exactly what the lexer ATN admits; helpers use radix 16/8, the stated digit counts and the 0o377 bound; bytes reject \\u/\\U; raw strings must not process backslashes; invalid code points are errors. Two disagreements pinned by existing tests are known findings. Delimiter handling is not decided.',
+        text='Only the escape-table clause: for each decoder and each ASCII character the code after a backslash is classified on every path (appends one constant code point / n hex digits / octal / error); the table must equal the CEL specification and accept exactly what the lexer ATN admits; helpers use radix 16/8, the stated digit counts and the 0o377 bound; bytes reject \\u/\\U; raw strings must not process backslashes; invalid code points are errors. Two disagreements pinned by existing tests are known findings. Bytes delimiters: every shape the lexer admits is stripped exactly (no constant-offset slice for one shape only, no greedy trim* of literal text), raw prefix recognised.',
         note='reference table tables/reference/escapes.json and the embedded lexer ATN trusted'),
     'C20': dict(
         category='other', design_ref='DESIGN.md §5 C20',
         technique='provenance/signature-table rules over extractors, registry and call site + rustc compile(-fail) witnesses for arities and parameter types',
-        text='This applies one conversion to receiver or first argument and is the first parameter of every built-in using it (table from the resolved generic arguments of the 24 registrations), no extractor indexes the argument list blindly, add is an unconditional insert and lookups walk to the root, 20 adapters exist and rustc accepts arities 0-9 / rejects arity 10 and unsupported types, the call site passes receiver, unevaluated arguments, name and a zero cursor.',
+        text='This applies one conversion to receiver or first argument and is the first parameter of every built-in using it (table from the resolved generic arguments of the 24 registrations), no extractor indexes the argument list blindly, add is an unconditional insert and lookups walk to the root, 20 adapters exist and rustc accepts arities 0-9 / rejects arity 10 and unsupported types, the call site passes receiver, unevaluated arguments, name and a zero cursor; FromValue accepts exactly its own variant; the evaluator compares the call name with operator names only, so every other name goes through the registry.',
         note='bodies of host functions are outside the claim'),
     'C10': dict(
         category='other', design_ref='DESIGN.md §5 C10',
@@ -74,12 +74,12 @@ CHECKS = {
     'C09': dict(
         category='other', design_ref='DESIGN.md §5 C09',
         technique='MIR table/decision-tree rules + cast rule with interval/NaN abstract interpretation over dominating branch edges',
-        text='Decides: the relation-operator table (partial_cmp -> bool per operator, None -> ValuesNotComparable, != is the provided negation of ==), orderable pairs are equatable pairs, no lossy int->float cast feeds a comparison and the float->int casts of the exact comparison helpers are NaN- and range-guarded, orientation of the mixed arms, min/max fold polarity. Transitivity/trichotomy over all values are not decided.',
+        text='Decides: the relation-operator table (partial_cmp -> bool per operator, None -> ValuesNotComparable, != is the provided negation of ==), orderable pairs are equatable pairs, no lossy int->float cast feeds a comparison and the float->int casts of the exact comparison helpers are NaN- and range-guarded, orientation of the mixed arms, same-kind arms compare (self, other) payloads with the own order of the kind (IEEE partial_cmp/== for doubles, never total_cmp/to_bits), min/max fold polarity. Transitivity/trichotomy over all values are not decided.',
         note='std Ord/PartialOrd of primitives and derived structural equality trusted'),
     'C14': dict(
         category='other', design_ref='DESIGN.md §5 C14',
         technique='who-calls rule over resolved call sites with key-provenance classification; shape rules for Map::get, index and `in` arms',
-        text='Decides the lookup-agreement clause: every lookup of a possibly numeric key on a CEL map goes through Map::get (the int/uint cross lookup), Map::get tries the exact key first and converts with try_from, list indexing uses get -> Null, `in` on lists is contains, map literals insert every evaluated entry; list/string `+` appends rhs to a copy-on-write view of self in order and size() is len() of the own payload (additivity then follows from std contracts).',
+        text='Decides the lookup-agreement clause: every lookup of a possibly numeric key on a CEL map goes through Map::get (the int/uint cross lookup), Map::get tries the exact key first and converts with try_from, list indexing uses get -> Null, `in` on lists is contains, map literals insert every evaluated entry; list/string `+` appends rhs to a copy-on-write view of self in order and size() is len() of the own payload (additivity then follows from std contracts); has(m.f) consults only the keys of the map (no member()/registry fallback).',
         note='std HashMap/slice contracts trusted; string/bool keys have no numeric twin'),
     'C19': dict(
         category='other', design_ref='DESIGN.md §5 C19',
@@ -94,7 +94,7 @@ CHECKS = {
     'C07': dict(
         category='other', design_ref='DESIGN.md §5 C07',
         technique='MIR path-sequence rules: CFG reachability/dominance between provenance-identified evaluation sites, extractor and adapter shape rules, who-may-call rule',
-        text='Decides the structural clauses: nothing is evaluated before the lazy function dispatch, sites of one node are ordered by argument index and not re-entered without advancing an iterator, extractors consume arguments one by one, only the evaluator layer calls resolve, the 20 adapters extract C1..Cn in order. "Bounded work" is the consequence and is not measured.',
+        text='Decides the structural clauses: nothing is evaluated before the lazy function dispatch, sites of one node are ordered by argument index and not re-entered without advancing an iterator, extractors consume arguments one by one, only the evaluator layer calls resolve, the 20 adapters extract C1..Cn in order, and the hand-written parser never places a copy of a sub-expression into the tree. "Bounded work" is the consequence and is not measured.',
         note='host functions using Arguments together with positional extractors or the public FunctionContext fields are outside the claim; std iterator contracts trusted'),
     'C08': dict(
         category='other', design_ref='DESIGN.md §5 C08',
